@@ -594,28 +594,42 @@ impl<'a> Pr<'a> {
                 let t = self.kw("THEN");
                 let s3 = self.sp();
                 let mut text = format!("{}{}{}{}{}{}", a, s1, c, s2, t, s3);
-                let then_start = text.chars().count();
-                let tt = self.simple_text(then_);
-                text.push_str(&tt);
-                let then_end = text.chars().count();
-                let mut else_span = None;
+                // (part, index, first column offset, one past the last column offset)
+                let mut spans: Vec<(&'static str, usize, usize, usize)> = vec![];
+                for (k, st) in then_.iter().enumerate() {
+                    if k > 0 {
+                        let c1 = self.osp();
+                        let c2 = self.osp();
+                        text.push_str(&format!("{}:{}", c1, c2));
+                    }
+                    let from = text.chars().count();
+                    let tt = self.simple_text(st);
+                    text.push_str(&tt);
+                    spans.push(("then", k, from, text.chars().count()));
+                }
                 if let Some(e) = else_ {
                     let s4 = self.sp();
                     let k = self.kw("ELSE");
                     let s5 = self.sp();
                     text.push_str(&format!("{}{}{}", s4, k, s5));
-                    let st = text.chars().count();
-                    let et = self.simple_text(e);
-                    text.push_str(&et);
-                    else_span = Some((st, text.chars().count()));
+                    for (k, st) in e.iter().enumerate() {
+                        if k > 0 {
+                            let c1 = self.osp();
+                            let c2 = self.osp();
+                            text.push_str(&format!("{}:{}", c1, c2));
+                        }
+                        let from = text.chars().count();
+                        let et = self.simple_text(st);
+                        text.push_str(&et);
+                        spans.push(("else", k, from, text.chars().count()));
+                    }
                 }
                 self.line_inner(Some(path), text, false, false, false);
                 // sub-sites for the inner statements (same row)
                 let site = self.sites.get(path).cloned().unwrap();
                 let base = site.col_start as usize;
-                self.sites.insert(format!("{}/then/0", path), Site { row: site.row, col_start: (base + then_start) as u32, col_end: (base + then_end - 1) as u32, proc_: site.proc_, after_colon: site.after_colon });
-                if let Some((st, en)) = else_span {
-                    self.sites.insert(format!("{}/else/0", path), Site { row: site.row, col_start: (base + st) as u32, col_end: (base + en - 1) as u32, proc_: site.proc_, after_colon: site.after_colon });
+                for (part, k, from, to) in spans {
+                    self.sites.insert(format!("{}/{}/{}", path, part, k), Site { row: site.row, col_start: (base + from) as u32, col_end: (base + to - 1) as u32, proc_: site.proc_, after_colon: site.after_colon });
                 }
             }
             Stmt::Select { subject, cases, else_ } => {
@@ -765,7 +779,7 @@ impl<'a> Pr<'a> {
                 self.depth = d;
             }
             Stmt::Dim(d) => {
-                let mut t = self.kw("DIM");
+                let mut t = self.kw(if d.redim > 0 { "REDIM" } else { "DIM" });
                 t.push_str(&self.sp());
                 if d.shared {
                     t.push_str(&self.kw("SHARED"));
@@ -789,7 +803,7 @@ impl<'a> Pr<'a> {
                     }
                     t.push(')');
                 }
-                if d.extended {
+                if d.extended && d.redim != 2 {
                     t.push_str(&self.sp());
                     t.push_str(&self.kw("AS"));
                     t.push_str(&self.sp());
